@@ -252,6 +252,13 @@ def spelling_pairs(rep):
         ('a >> b / Right(a, b)', N('Infix', left=a, operator='>>', right=b), call('Right', a, b)),
         ('a << b / Left(a, b)', N('Infix', left=a, operator='<<', right=b), call('Left', a, b)),
         ('a | b / Choice(a, b)', N('Infix', left=a, operator='|', right=b), call('Choice', a, b)),
+        # alternatives keep the written order whatever they are - also literals one of which begins with another
+        ('"a" | "ab" | "abc" / Choice("a", "ab", "abc")',
+         ('lazy', lambda: N('Infix', left=create(N('Infix', left=leaf('a'), operator='|', right=leaf('ab'))), operator='|',
+                            right=leaf('abc'))),
+         ('lazy', lambda: call('Choice', leaf('a'), leaf('ab'), leaf('abc')))),
+        ('"ab" | "a" / Choice("ab", "a")', ('lazy', lambda: N('Infix', left=leaf('ab'), operator='|', right=leaf('a'))),
+         ('lazy', lambda: call('Choice', leaf('ab'), leaf('a')))),
         ('[a, b] / Seq(a, b)', N('ListLiteral', elements=[a, b]), call('Seq', a, b)),
         ('a // b / Sep(a, b)', N('Infix', left=a, operator='//', right=b), call('Sep', a, b)),
         ('a /? b / Sep(a, b, allow_trailer=True)', N('Infix', left=a, operator='/?', right=b),
